@@ -138,6 +138,11 @@ def check_gmm(g, x, what, thr_count=None):
     ll = core.impl(lambda: np.asarray(g.log_likelihood(x), float))
     if isinstance(ll, core.ImplError) or not np.all(np.isfinite(ll)):
         return {"sig": "non-finite-log-likelihood", "what": f"{what}: {ll!r}"}
+    import dask.array as da
+    x_ = np.asarray(x, float)
+    lld = core.impl(lambda: np.asarray(g.log_likelihood(da.from_array(x_, chunks=(max(1, len(x_) // 2), x_.shape[1]))), float))
+    if isinstance(lld, core.ImplError) or not np.all(np.isfinite(lld)):
+        return {"sig": "non-finite-log-likelihood", "what": f"{what}, scored from a Dask array: {lld!r} (NumPy: {ll.tolist()})"}
     return None
 
 
